@@ -101,7 +101,7 @@ NOT_EXERCISED = {
 REQUIRED_PROBES = {
     "C12": ["has_frozen", "frozen_strict_subset", "all_frozen", "freeze_NT_subtree", "freeze_fn_leaves", "trainable_moved", "teleport_fired", "frozen_grad_leaves_checked", "states_checked"],
     "C11": ["ctor_roundtrips", "states_checked", "teleport_fired", "sig_scale_min", "sig_tri_diag_min", "sig_df_min", "sig_mix_lse_absmax", "sig_spline_x_mindiff", "sig_planar_margin"],
-    "C09": ["maf_nodes", "coupling_nodes", "states_checked", "teleport_fired", "sig_cond"],
+    "C09": ["maf_nodes", "coupling_nodes", "states_checked", "teleport_fired", "sig_cond", "all_positive_states_checked", "prelude_same_sizes"],
     "C18": ["fault_rows", "fault_row_batches", "finite_loss_with_fault_row", "poison_checks", "inf_loss_batches", "clean_run"],
     "C15": ["batch_1", "batch_gt_n", "cond", "remainder_skipped", "val_single_batch", "perm_seam_checked"],
     "C16": ["early_stop_hit", "best_not_last", "best_not_first", "tie_at_min", "nan_in_val", "inf_in_val", "max_epochs_0",
@@ -111,7 +111,7 @@ OPTIONAL_FAULTS = {"C15": ["loss_tie_at_min", "degenerate_zero_epochs_or_steps",
 
 # fault kinds each property's worlds can schedule (evidence lists only these)
 ENABLED_FAULTS = {
-    "C09": ["opt_teleport", "grad_huge", "opt_signflip", "degenerate_knobs"],
+    "C09": ["opt_teleport", "opt_teleport_positive", "grad_huge", "opt_signflip", "degenerate_knobs"],
     "C11": ["opt_teleport", "grad_huge", "opt_signflip", "degenerate_knobs"],
     "C12": ["opt_teleport", "grad_huge", "opt_signflip", "opt_zero", "grad_nan", "grad_inf", "degenerate_knobs"],
     "C18": ["data_fault_row", "opt_teleport"],
